@@ -4,7 +4,8 @@
 //   lemmas of the fixed-width twin Uint::div_rem_vartime, l3_div_vt.rs, with LIMBS replaced by the slice lengths),
 //   boxed div_rem_limb_with_reciprocal / rem_limb_with_reciprocal (twins of l3_divlimb.rs), `impl BitOr for Limb`,
 //   `ShlAssign<u32>` / `ShrAssign<u32> for Limb`.
-// assumed: `BoxedUint::shl_limb` (stub region), `Shl<u32>` / `Shr<u32> for Limb` (hand-instantiated macro arms, see below).
+//   `BoxedUint::shl_limb` and `From<Vec<Limb>> for BoxedUint` (the constructor every `vec.into()` of the boxed layer goes through).
+// assumed: `Shl<u32>` / `Shr<u32> for Limb` (hand-instantiated macro arms, see below); library: `Vec::into_boxed_slice`, `Box<[T]>: From<Vec<T>>`.
 // div_rem_vartime_in_place: besides its documented panic (empty divisor / zero leading divisor limb) the function indexes
 //   `y[yc - 2]` and `x[xi - 1]`, i.e. it also panics for a one-limb divisor with a non-empty dividend; every caller in /repo
 //   dispatches one-limb divisors to limb division first, so the contract carries `x.len() == 0 || y.len() >= 2`.
@@ -1127,8 +1128,7 @@ pub fn div_rem_vartime_in_place(x: &mut [Limb], y: &mut [Limb])
 }
 //@@ end
 // ---------------------------------------------------------------- BoxedUint (src/uint/boxed.rs): limb division
-// Only the struct and the two free functions of src/uint/boxed/div_limb.rs are mirrored; `BoxedUint::shl_limb`
-// (src/uint/boxed/shl.rs: `vec!`, `Vec -> Box<[Limb]>`) is an assumed callee with the contract of the fixed `Uint::shl_limb`.
+// The struct, `From<Vec<Limb>>`, `BoxedUint::shl_limb` (src/uint/boxed/shl.rs) and the two free functions of src/uint/boxed/div_limb.rs are mirrored.
 //@@ item src/uint/boxed.rs | struct BoxedUint
 //@+
 #[verifier::external_derive(Clone)]
@@ -1163,9 +1163,49 @@ proof fn lemma_shl_seq(ul: Seq<Limb>, l: u32)
     }
 }
 
-//@@ fn src/uint/boxed/shl.rs | impl BoxedUint | shl_limb | stub | props C05 C02 C11
+// `Vec::into_boxed_slice` has no vstd specification (vstd specifies `Vec::new/with_capacity/push/len/index/..`, `vec!`): library assumption
+pub assume_specification<T, A: core::alloc::Allocator>[Vec::<T, A>::into_boxed_slice](v: Vec<T, A>) -> (r: Box<[T], A>)
+    ensures r@ == v@;
+// `impl<T, A> From<Vec<T, A>> for Box<[T], A>` (= `v.into_boxed_slice()`), reached through `let b: Box<[Limb]> = vec.into()`
+pub assume_specification<T, A: core::alloc::Allocator>[<Box<[T], A> as From<Vec<T, A>>>::from](v: Vec<T, A>) -> (r: Box<[T], A>)
+    ensures r@ == v@;
+impl vstd::std_specs::convert::FromSpecImpl<Vec<Limb>> for BoxedUint {
+    open spec fn obeys_from_spec() -> bool { false }
+    open spec fn from_spec(v: Vec<Limb>) -> BoxedUint { arbitrary() }
+}
+//@@ fn src/uint/boxed/from.rs | impl From<Vec<Limb>> for BoxedUint | from | body | props C16 C15 C11
+impl From<Vec<Limb>> for BoxedUint {
+fn from(mut limbs: Vec<Limb>) -> (ret__: BoxedUint)
+//@+
+    // an empty vector becomes the one-limb zero; every BoxedUint built through this conversion has >= 1 limb
+    ensures ret__.limbs@ == (if limbs@.len() == 0 { seq![Limb(0)] } else { limbs@ }),
+        ret__.limbs@.len() >= 1, ret__.v() == val(limbs@, limbs@.len())
+//@-
+{
+//@+
+    let ghost l0 = limbs@;
+//@-
+        if limbs.is_empty() {
+            limbs.push(Limb::ZERO);
+        }
+//@+
+    proof {
+        if l0.len() == 0 {
+            assert(limbs@ =~= seq![Limb(0)]);
+            lemma_bp1();
+            assert(val(limbs@, 1) == val(limbs@, 0) + limbs@[0].0 as int * bp(0));
+            assert(0 * bp(0) == 0) by (nonlinear_arith);
+        }
+    }
+//@-
+        Self {
+            limbs: limbs.into_boxed_slice(),
+        }
+    }
+}
+//@@ end
+//@@ fn src/uint/boxed/shl.rs | impl BoxedUint | shl_limb | body | props C05 C02 C11
 impl BoxedUint {
-#[verifier::external_body]
 pub fn shl_limb(&self, shift: u32) -> (ret__: (Self, Limb))
 //@+
     requires self.limbs@.len() >= 1, shift < 64
@@ -1173,8 +1213,76 @@ pub fn shl_limb(&self, shift: u32) -> (ret__: (Self, Limb))
         ret__.0.v() + ret__.1.0 as int * bp(self.limbs@.len()) == self.v() * p2(shift as nat), (ret__.1.0 as int) < p2(shift as nat)
 //@-
 {
-    unimplemented!()
-}
+//@+
+    let ghost n = self.limbs@.len(); let ghost tgt = shl_seq(self.limbs@, shift);
+//@-
+        let mut limbs = vec![Limb::ZERO; self.limbs.len()];
+        let nz = ConstChoice::from_u32_nonzero(shift);
+        let lshift = shift;
+        let rshift = nz.if_true_u32(Limb::BITS - shift);
+        let carry = nz.if_true_word(
+            self.limbs[self.limbs.len() - 1]
+                .0
+                .wrapping_shr(Word::BITS - shift),
+        );
+        limbs[0] = Limb(self.limbs[0].0 << lshift);
+//@+
+    proof {
+        let x0 = self.limbs@[0].0;
+        assert(x0 << 0u32 == x0) by (bit_vector);
+        assert(limbs@[0] == tgt[0]);
+    }
+//@-
+        let mut i = 1;
+        while i < self.limbs.len()
+//@+
+    invariant 1 <= i <= n, n == self.limbs@.len(), limbs@.len() == n, shift < 64, lshift == shift, nz.wf(), nz.t() == (shift != 0),
+        rshift == (if shift != 0 { (64 - shift) as u32 } else { 0u32 }), tgt == shl_seq(self.limbs@, shift),
+        forall|k: int| 0 <= k < i ==> limbs@[k] == tgt[k],
+    decreases n - i,
+//@-
+{
+            let mut limb = self.limbs[i].0 << lshift;
+            let hi = self.limbs[i - 1].0 >> rshift;
+//@+
+    let ghost limb0 = limb;
+//@-
+            limb |= nz.if_true_word(hi);
+            limbs[i] = Limb(limb);
+//@+
+    proof {
+        let x = self.limbs@[i as int].0;
+        assert(x << 0u32 == x) by (bit_vector);
+        assert(limb0 | 0u64 == limb0) by (bit_vector);
+        assert(limbs@[i as int] == tgt[i as int]);
+    }
+//@-
+            i += 1
+        }
+//@+
+    proof {
+        assert(limbs@ =~= tgt);
+        lemma_shl_seq(self.limbs@, shift);
+        let xt = self.limbs@[n - 1].0;
+        if shift != 0 {
+            let r = (64 - shift) as u32;
+            lemma_u64_shr_div(xt, r);
+            lemma_pow2_adds(r as nat, shift as nat); lemma_pow2_64(); lemma_pow2_pos(r as nat);
+            assert(xt as int / p2(r as nat) < p2(shift as nat)) by (nonlinear_arith)
+                requires (xt as int) < p2(r as nat) * p2(shift as nat), p2(r as nat) > 0, xt >= 0;
+        } else {
+            lemma_pow2_pos(0);
+            assert(0 * bp(n) == 0) by (nonlinear_arith);
+        }
+    }
+//@-
+        (
+            BoxedUint {
+                limbs: limbs.into(),
+            },
+            Limb(carry),
+        )
+    }
 }
 //@@ end
 //@@ fn src/uint/boxed/div_limb.rs | - | div_rem_limb_with_reciprocal | body | props C02 C11
